@@ -291,27 +291,61 @@ pub fn vx_apid_candidate(trimmed_tag: &str, iteration: u16) -> (r: DltChar4) { u
 //@|    ensures true, // O:asc.genlog.apid_msg_no_overflow
 //@ end
 
-// Asc2DltMsgIterator::next, a CAN line: from the position of the data-length capture to the decoded data bytes
-//@ extract src/utils/asc2dltmsgiterator.rs region `let loc_d_start = loc_d.1 + 1;` .. `let data = if *data_len > 0` in <Iterator for Asc2DltMsgIterator>::next
-//@   sig pub fn asc_can_data(line: &VxLine, loc_d: (usize, usize), data_len: &u16) -> (r: Option<Vec<u8>>)
-//@   tail `data`
+// Asc2DltMsgIterator::next, a CAN line: from the position of the data-length capture through the decoded data bytes, the payload
+// (frame id + data) and the message built from them (R12: the iterator reduced to the fields read here)
+pub struct VxAscIt { pub index: u32, pub date_us: u64, pub htyp: u8, pub len_wo_payload: u16, pub apid: DltChar4, pub ctid: DltChar4, pub times: VxAscTimes }
+impl VxAscIt {
+    #[verifier::external_body]
+    pub fn get_ecu(&mut self, can_id: u8, name: &Option<&str>) -> (r: DltChar4)
+        ensures final(self).index == old(self).index, final(self).len_wo_payload == old(self).len_wo_payload, final(self).times == old(self).times,
+    { unimplemented!() }
+    // proved above (timestamp_dms_from, with its body): total
+    #[verifier::external_body]
+    pub fn timestamp_dms_from(&self, timestamp_us: i64) -> (r: u32) { unimplemented!() }
+}
+// u64::saturating_add_signed
+#[verifier::external_body]
+pub fn vx_u64_saturating_add_signed(a: u64, b: i64) -> (r: u64) { a.saturating_add_signed(b) }
+// payload.extend(frame_id.to_ne_bytes()): four more bytes
+#[verifier::external_body]
+pub fn vx_extend_u32(v: &mut Vec<u8>, x: u32)
+    ensures final(v)@.len() == old(v)@.len() + 4,
+{ v.extend(x.to_ne_bytes()) }
+#[verifier::external_body]
+pub fn vx_vec_with_capacity_u8(n: usize) -> (r: Vec<u8>)
+    requires n <= 0x1_0004, // O:asc.can.payload_prealloc_bounded (allocation clause: 4 + a 16-bit data length)
+    ensures r@.len() == 0,
+{ Vec::with_capacity(n) }
+//@ extract src/utils/asc2dltmsgiterator.rs region `let loc_d_start = loc_d.1 + 1;` .. `return Some(DltMessage {` in <Iterator for Asc2DltMsgIterator>::next
+//@   sig pub fn asc_can_msg(vx_self: &mut VxAscIt, line: &VxLine, loc_d: (usize, usize), data_len: &u16, frame_id: u32, can_id: &u8, timestamp_us: i64) -> (r: Option<DltMessage>)
+//@   tail `None`
+//@   sub R12 `self` => `vx_self` *
 //@   sub R11 `line.len()` => `vx_blen(line.as_str())` ?
 //@   sub R11 `&line.as_str()[loc_d_start..loc_d_end]` => `vx_str_slice(line.as_str(), loc_d_start, loc_d_end)` ?
 //@   sub R11 `line.as_str().get(loc_d_start..loc_d_end)` => `vx_str_get(line.as_str(), loc_d_start, loc_d_end)` ?
+//@   sub R11 `Vec::with_capacity((u32::BITS / 8) as usize + (*data_len as usize))` => `vx_vec_with_capacity_u8((32u32 / 8) as usize + (*data_len as usize))`
+//@   sub R11 `payload.extend(frame_id.to_ne_bytes());` => `vx_extend_u32(&mut payload, frame_id);`
+//@   sub R11 `vx_self.date_us.saturating_add_signed(timestamp_us)` => `vx_u64_saturating_add_signed(vx_self.date_us, timestamp_us)`
 //@   spec
 //@|    requires loc_d.1 <= blen(line.s()), blen(line.s()) <= usize::MAX - 0x10_0000, boundary(line.s(), loc_d.1 as int), // a regex capture ends on a character boundary inside the line
+//@|        old(vx_self).index < u32::MAX, // fewer than 2^32 messages (ASSUMED)
 //@|    ensures true, // O:asc.can.data_no_panic
 //@ end
 // the same for a CAN-FD line (second occurrence of the statements)
-//@ extract src/utils/asc2dltmsgiterator.rs region `>>let loc_d = self.capture_locations_canfd.get(8).unwrap();` .. `let data = if *data_len > 0` in <Iterator for Asc2DltMsgIterator>::next
-//@   sig pub fn asc_canfd_data(line: &VxLine, cap_str: &str, loc_d: (usize, usize)) -> (r: Option<Vec<u8>>)
-//@   tail `data`
+//@ extract src/utils/asc2dltmsgiterator.rs region `>>let loc_d = self.capture_locations_canfd.get(8).unwrap();` .. `return Some(DltMessage {` in <Iterator for Asc2DltMsgIterator>::next
+//@   sig pub fn asc_canfd_msg(vx_self: &mut VxAscIt, line: &VxLine, cap_str: &str, loc_d: (usize, usize), frame_id: u32, can_id: &u8, timestamp_us: i64) -> (r: Option<DltMessage>)
+//@   tail `None`
+//@   sub R12 `self` => `vx_self` *
 //@   sub R11 `&cap_str[loc_d.0..loc_d.1].parse::<u16>().unwrap_or_default()` => `&vx_parse_u16(cap_str, loc_d.0, loc_d.1)` ?
 //@   sub R11 `line.len()` => `vx_blen(line.as_str())` ?
 //@   sub R11 `&line.as_str()[loc_d_start..loc_d_end]` => `vx_str_slice(line.as_str(), loc_d_start, loc_d_end)` ?
 //@   sub R11 `line.as_str().get(loc_d_start..loc_d_end)` => `vx_str_get(line.as_str(), loc_d_start, loc_d_end)` ?
+//@   sub R11 `Vec::with_capacity((u32::BITS / 8) as usize + (*data_len as usize))` => `vx_vec_with_capacity_u8((32u32 / 8) as usize + (*data_len as usize))`
+//@   sub R11 `payload.extend(frame_id.to_ne_bytes());` => `vx_extend_u32(&mut payload, frame_id);`
+//@   sub R11 `vx_self.date_us.saturating_add_signed(timestamp_us)` => `vx_u64_saturating_add_signed(vx_self.date_us, timestamp_us)`
 //@   spec
 //@|    requires loc_d.1 <= blen(line.s()), blen(line.s()) <= usize::MAX - 0x10_0000, boundary(line.s(), loc_d.1 as int),
+//@|        old(vx_self).index < u32::MAX, // fewer than 2^32 messages (ASSUMED)
 //@|    ensures true, // O:asc.canfd.data_no_panic
 //@ end
 #[verifier::external_body]
